@@ -9,11 +9,11 @@
              | (1 lc blen rc) bar | (2 n) colons | (3 gt k) broken rhythm | (4 field) inline
              | (5) no-op | (6 kind) unsupported, kind 0=chord 1=tuplet 2=variant ending 3=invalid char
       acc    = 0 none, 1 ^, 2 _, 3 =, 4 ^^, 5 __
-    output (0 (tune ...) (exn ...)) | (1 exn)
+    output (0 (tune ...) (exn ...) (check ...)) | (1 exn)
       tune   = (ref notes tempos tsigs ksigs sects groups total expansion)
       times are (num den) *)
 From Coq Require Import ZArith QArith List Bool.
-From NS Require Import Base.Sx Gen.G04 Model.Abc.
+From NS Require Import Base.Sx Gen.G04 Model.Abc Model.AbcUnroll.
 Import ListNotations.
 Local Open Scope Z_scope.
 
@@ -94,8 +94,14 @@ Definition oTune (t : tune) : sx :=
 Definition run (s : sx) : sx :=
   match xZ (xnth 0 s) with
   | 1 =>
-      match parse_book (map (fun sec => map xLine (xL sec)) (xL (xnth 1 s))) with
-      | BookOk ts es => L [I 0; L (map oTune ts); L (map oExn es)]
+      let secs := map (fun sec => map xLine (xL sec)) (xL (xnth 1 s)) in
+      match parse_book secs with
+      | BookOk ts es =>
+          (* last element: per tune, the model-level comparison of the expanded notes with the
+             notes of the unrolled reading (0 n/a, 1 agree, 2 differ) *)
+          let '(h, tunes) := split_header secs in
+          L [I 0; L (map oTune ts); L (map oExn es);
+             L (map (fun t => I (expansion_check (flatten (h ++ t)))) tunes)]
       | BookRaise e => L [I 1; oExn e]
       end
   | _ => oErr 1
